@@ -42,26 +42,26 @@ def generate(wd, module, consts=None, out="cases.ndjson", env=None, timeout=1800
     return path, r
 
 
-def generate_fancy(wd, size, timeout=3600, out="cases.ndjson"):
-    """FancyGen in parallel: every process builds the set of programs (cheap) and expands and writes its share (expensive); the shares are merged by id."""
-    n = 1 if size == 1 else PROCS
+def generate_sharded(wd, module, consts, n, timeout=3600, out="cases.ndjson", mem="3g"):
+    """A generator module with CONSTANTS Shard, NShards in parallel: every process builds the set of cases (cheap) and renders and writes its share
+    (expensive); the shares are merged by id."""
     runs, paths = [], []
     for k in range(1, n + 1):
-        cfg = "FancyGen_%d.cfg" % k
+        cfg = "%s_%d.cfg" % (module, k)
         with open(os.path.join(wd, cfg), "w") as f:
-            f.write("INIT Init\nNEXT Next\nCHECK_DEADLOCK FALSE\nCONSTANTS\n  Size = %d\n  Shard = %d\n  NShards = %d\n" % (size, k, n))
-        path = os.path.join(wd, "cases_part_%d.ndjson" % k)
+            f.write("INIT Init\nNEXT Next\nCHECK_DEADLOCK FALSE\nCONSTANTS\n" + "".join("  %s = %s\n" % kv for kv in consts.items()) + "  Shard = %d\n  NShards = %d\n" % (k, n))
+        path = os.path.join(wd, "%s_part_%d.ndjson" % (out.split(".")[0], k))
         paths.append(path)
-        runs.append(TlcRun(wd, "FancyGen.tla", cfg, env={"OUT": path}, name="gen_FancyGen_%d" % k, timeout=timeout, mem="8g" if n == 1 else "3g"))
+        runs.append(TlcRun(wd, module + ".tla", cfg, env={"OUT": path}, name="gen_%s_%d" % (module, k), timeout=timeout, mem="8g" if n == 1 else mem))
     run_tlc_many(runs)
     for r in runs:
         err = r.other_error()
         if err:
-            raise ToolError("case generator FancyGen failed: %s" % err)
+            raise ToolError("case generator %s failed: %s" % (module, err))
     rows = []
     for p in paths:
         if not os.path.exists(p):
-            raise ToolError("case generator FancyGen wrote nothing (%s)" % p)
+            raise ToolError("case generator %s wrote nothing (%s)" % (module, p))
         with open(p) as f:
             rows += [(json.loads(l)["id"], l if l.endswith("\n") else l + "\n") for l in f if l.strip()]
         os.remove(p)
@@ -70,6 +70,10 @@ def generate_fancy(wd, size, timeout=3600, out="cases.ndjson"):
     with open(outp, "w") as f:
         f.writelines(l for _, l in rows)
     return outp, runs[0]
+
+
+def generate_fancy(wd, size, timeout=3600, out="cases.ndjson"):
+    return generate_sharded(wd, "FancyGen", {"Size": size}, 1 if size == 1 else PROCS, timeout, out)
 
 
 def split_file(path, n, wd, stem):
@@ -951,7 +955,8 @@ def c16(tier, replay_file=None):
         exe = build_harness()
         wd = workdir("%s-%s" % (prop, "replay" if replay_file else tier))
         t0 = time.time()
-        cpath, g = generate(wd, "DevGen", {"MaxLen": 2 if (tier == "quick" or replay_file) else 3}, timeout=3600, mem="8g")
+        small = tier == "quick" or replay_file
+        cpath, g = generate_sharded(wd, "DevGen", {"MaxLen": 2 if small else 3}, 1 if small else PROCS, timeout=3600)
         cases = read_ndjson(cpath)
         nkinds = parse_tla_value(g.printed("GENERATED")[0])[2]
         if replay_file:
